@@ -10,7 +10,14 @@ from typing import List
 
 from . import VERIF
 
-EVIDENCE_DIR = os.environ.get("VSTATIC_EVIDENCE_DIR") or os.path.join(VERIF, "evidence")
+if os.environ.get("VSTATIC_EVIDENCE_DIR"):
+    EVIDENCE_DIR = os.environ["VSTATIC_EVIDENCE_DIR"]
+elif os.environ.get("VSTATIC_REPO") and os.path.realpath(os.environ["VSTATIC_REPO"]) != "/repo":
+    # scratch-copy runs never overwrite the committed evidence of /repo
+    import tempfile
+    EVIDENCE_DIR = os.path.join(tempfile.gettempdir(), "vstatic-evidence-scratch")
+else:
+    EVIDENCE_DIR = os.path.join(VERIF, "evidence")
 REPLAY_DIR = os.path.join(EVIDENCE_DIR, "replay")
 KNOWN_FILE = os.path.join(VERIF, "known_findings.json")
 
